@@ -25,6 +25,8 @@ def _nt(g, desc):
 
 
 check, harness, _jobs, _replay = make(_oracle, stages=(0, 1, 2, 3), nontrivial=_nt, n5_routes=False)
+# a graph handed over by a front end with blocks its head cannot reach is still a graph whose iteration must be complete
+harness.wants_unclosed = True
 
 
 # hand-built flat graphs with doubled arcs, self loops and external targets ("all graphs": what from_dict / from_yaml and a
